@@ -2,6 +2,7 @@ package dials
 
 import (
 	"context"
+	"errors"
 	"fmt"
 	"io"
 	"reflect"
@@ -158,15 +159,18 @@ func (p Params[T]) Config(ctx context.Context, t *T, sources ...Source) (*Dials[
 		// the time.
 		cbch := make(chan userCallbackEvent, 64)
 		d.cbch = cbch
+		monDone := make(chan struct{})
+		d.monDone = monDone
 		cbmgr := callbackMgr[T]{
-			p:  &p,
-			ch: cbch,
+			p:       &p,
+			ch:      cbch,
+			monDone: monDone,
 		}
 		go cbmgr.runCBs(ctx)
 
 		monCtl := make(chan verifyEnable[T], 3)
 		d.monCtl = monCtl
-		go d.monitor(ctx, tVal.Interface().(*T), computed, watcherChan, monCtl)
+		go d.monitor(ctx, tVal.Interface().(*T), computed, watcherChan, monCtl, monDone)
 	}
 	return d, nil
 }
@@ -294,6 +298,8 @@ func (w *watchArgs) ReportError(ctx context.Context, err error) error {
 }
 
 var _ WatchArgs = (*watchArgs)(nil)
+
+var errMonitorExited = errors.New("dials monitor has exited (context cancelled or all watching sources are done)")
 
 // WatchArgs provides methods for a Watcher implementation to update the state
 // of a Dials instance.
@@ -526,7 +532,16 @@ func (d *Dials[T]) submitEventBlocking(ctx context.Context, ev userCallbackEvent
 	}
 	verifSched("api.submit")
 	select {
+	case <-d.monDone:
+		// the monitor has exited, so the callback goroutine is shutting
+		// down (or already gone): nothing will handle this event.
+		return false
+	default:
+	}
+	select {
 	case <-ctx.Done():
+		return false
+	case <-d.monDone:
 		return false
 	case d.cbch <- ev:
 		return true
@@ -594,6 +609,8 @@ func (d *Dials[T]) EnableVerification(ctx context.Context) (*T, CfgSerial[T], er
 	resp := make(chan verifyEnableResp[T], 1)
 	select {
 	case d.monCtl <- verifyEnable[T]{resp: resp}:
+	case <-d.monDone:
+		return nil, CfgSerial[T]{}, errMonitorExited
 	case <-ctx.Done():
 		return nil, CfgSerial[T]{}, fmt.Errorf("context expired while signaling: %w", ctx.Err())
 	}
@@ -601,6 +618,8 @@ func (d *Dials[T]) EnableVerification(ctx context.Context) (*T, CfgSerial[T], er
 	select {
 	case r := <-resp:
 		return r.v, r.tok, r.err
+	case <-d.monDone:
+		return nil, CfgSerial[T]{}, errMonitorExited
 	case <-ctx.Done():
 		return nil, CfgSerial[T]{}, fmt.Errorf("context expired while awaiting response: %w", ctx.Err())
 	}
@@ -634,8 +653,13 @@ func (d *Dials[T]) monitor(
 	sourceValues []sourceValue,
 	watcherChan chan watchStatusUpdate,
 	monCtl <-chan verifyEnable[T],
+	monDone chan<- struct{},
 ) {
-	defer close(d.cbch)
+	// Tell the callback goroutine (and anyone trying to submit events to it)
+	// that nothing else will be installed. The callback channel itself is
+	// never closed, since RegisterCallback and unregister calls may still be
+	// sending on it.
+	defer close(monDone)
 	defer verifSched("mon.exit")
 	skipVerify := d.params.DelayInitialVerification
 	for {
